@@ -660,17 +660,19 @@ def _atan2(y: S, x: S):
     c = core.ctx()
     if x.is_const and y.is_const:
         return S(core._frac(math.atan2(float(y.re), float(x.re))))
-    c.n_fresh += 1
-    psi = c.angle(f"_atan2_{c.n_fresh}", 1)
-    v, unit, cc, ss = c.angles[core._z(psi.re).get_id()]
+    import z3
     r = (x * x + y * y).sqrt()
-    c.side.append(core._z(r.re) * cc == core._z(x.re))
-    c.side.append(core._z(r.re) * ss == core._z(y.re))
+    c.n_fresh += 1
+    name = f"_atan2_{c.n_fresh}"
+    v, cc, ss = z3.Real(name), z3.Real(name + ".cos"), z3.Real(name + ".sin")
+    c.symbols[name] = v
+    c.angles[v.get_id()] = (v, Fraction(1), cc, ss)
+    c.side += [cc * cc + ss * ss == 1, core._z(r.re) * cc == core._z(x.re), core._z(r.re) * ss == core._z(y.re)]
+    # definitions are evaluated in order: the angle first, then its cos/sin atoms
     c.defs.append((v, "atan2", (core._z(y.re), core._z(x.re))))
-    # definitions are evaluated in order: the atom itself must precede its cos/sin
-    d = c.defs
-    d.insert(len(d) - 3, d.pop())
-    return psi
+    c.defs.append((cc, "cos_unit", (v, Fraction(1))))
+    c.defs.append((ss, "sin_unit", (v, Fraction(1))))
+    return S(v)
 
 
 @handler("atan2", "arctan2")
@@ -899,6 +901,15 @@ HANDLERS.update({
 
 
 # ----------------------------------------------------------------------------------------- module proxy
+class _AnyTensorMeta(type):
+    def __instancecheck__(cls, x):
+        return isinstance(x, (torch.Tensor, SymTensor))
+
+
+class AnyTensor(metaclass=_AnyTensorMeta):
+    """isinstance(x, torch.Tensor) inside a patched module accepts symbolic tensors too"""
+
+
 class TorchProxy:
     """stands in for a module's global `torch`: creation functions accept symbolic elements"""
 
@@ -906,7 +917,7 @@ class TorchProxy:
         self.fft = torch.fft
         self.nn = torch.nn
         self.linalg = torch.linalg
-        self.Tensor = torch.Tensor
+        self.Tensor = AnyTensor
 
     def __getattr__(self, name):
         return getattr(torch, name)
